@@ -29,6 +29,7 @@ import (
 //	                this call; the client keeps the schema it received
 //	R-fresh-schema      no schema is served from a package-level cache
 //	R-cache-invalidated a list cached next to a registry is dropped by every registration (shared with C12)
+//	R-fresh-buffer      (shared with C01) a loop decodes each entry into a raw-byte holder of its own
 //	(R-bind also requires the arguments map to be marshalled untouched)
 func init() { Registry["C18"] = checkC18 }
 
@@ -74,6 +75,7 @@ func checkC18(c *Ctx) {
 	c18Bind(c)
 	c18FreshSchema(c)
 	c18ServedAsRegistered(c)
+	c01FreshBuffer(c) // the raw schema bytes a client keeps from a listing are not overwritten by the next entry decoded
 	// ... nor from a list cached next to the tool registry that a re-registration fails to drop (C12's rule)
 	accs := CollectAccesses(c)
 	c12DerivedCache(c, discoverRegistries(c, accs), accs)
@@ -371,6 +373,7 @@ func c18KindCases(c *Ctx, gens []*ssa.Function) {
 									// Elem().Kind() == Uint8: byte slices
 									if rc, ok := call.Call.Value.(*ssa.Call); ok && rc.Call.IsInvoke() && rc.Call.Method.Name() == "Elem" {
 										feat["bytes"] = true
+										c18BytesOnlySlices(c, f, x)
 									}
 								}
 							}
@@ -1157,4 +1160,68 @@ func c18ServedAsRegistered(c *Ctx) {
 	if n == 0 {
 		c.R.Hold("R-served-as-registered", "no server-side function decodes a Tool from JSON", "", "registered tools are encoded as they are")
 	}
+}
+
+
+// c18BytesOnlySlices (R-kind-cases): encoding/json writes a byte SLICE as a base64 string; a byte ARRAY ([N]byte) is
+// written as an array of numbers. A generator's "element kind is Uint8" test may therefore take effect only where the
+// kind is known to be reflect.Slice: the test itself, the branch on it, or — when it sits in a predicate helper — every
+// call of the helper, is reachable only through the true edge of `Kind() == reflect.Slice` (a `case reflect.Slice,
+// reflect.Array:` arm is not).
+func c18BytesOnlySlices(c *Ctx, fn *ssa.Function, test *ssa.BinOp) {
+	const kindSlice = 23
+	sliceOnly := func(f *ssa.Function, b *ssa.BasicBlock) bool {
+		for _, g := range flow.Guards(f, b) {
+			bin, ok := g.If.Cond.(*ssa.BinOp)
+			if !ok || bin.Op != token.EQL || !g.Branch {
+				continue
+			}
+			call, ok := bin.X.(*ssa.Call)
+			if !ok || !call.Call.IsInvoke() || call.Call.Method.Name() != "Kind" {
+				continue
+			}
+			if k, ok := ir.ConstInt(bin.Y); ok && k == kindSlice {
+				return true
+			}
+		}
+		return false
+	}
+	ok := sliceOnly(fn, test.Block())
+	where := fn
+	if !ok && test.Referrers() != nil {
+		usedInIf, returned := false, false
+		allIf := true
+		for _, r := range *test.Referrers() {
+			switch y := r.(type) {
+			case *ssa.If:
+				usedInIf = true
+				if !sliceOnly(fn, y.Block()) {
+					allIf = false
+				}
+			case *ssa.Return, *ssa.Phi:
+				returned = true
+			}
+		}
+		if usedInIf && allIf && !returned {
+			ok = true
+		}
+		if returned && !usedInIf {
+			// a predicate helper: every library call site decides
+			n, all := 0, true
+			for _, e := range ir.Callers(c.G, fn) {
+				if e.Site == nil || !c.P.IsLib(e.Caller.Func) {
+					continue
+				}
+				n++
+				if !sliceOnly(e.Caller.Func, e.Site.Block()) {
+					all = false
+					where = e.Caller.Func
+				}
+			}
+			ok = n > 0 && all
+		}
+	}
+	c.R.Check(ok, "R-kind-cases", "byte-sequence case of "+fname(fn)+" limited to slices", c.Pos(test.Pos()),
+		"the element-kind test takes effect only where Kind() == reflect.Slice",
+		sprintf("%s treats a sequence whose element kind is Uint8 as a base64 string in %s without the kind being known to be reflect.Slice (an arm shared with reflect.Array): encoding/json writes a [N]byte as an array of numbers, so the schema rejects the JSON encoding of every value with a byte array", fname(fn), fname(where)))
 }
